@@ -8,6 +8,13 @@ concretises each case into real pprof profiles, pushes them through the REAL /in
 MergeTrie + BFS in many profile/row orders, and compares.  A seeded sample of the non-canonical row orders with what the
 real code produced is validated by TLC against the spec (MC_ProfTreeObs).
 
+The second merge of stored profiles -- the pprof PAYLOADS, merged by the reader's ProfileMergeV2 after sanitizeProfile (what
+SelectMergeProfile answers) -- is in the spec as PMergeMech / PMergeDef (PayloadMergeEqDef in every order of the profiles,
+PayloadMergeSum, PayloadMergeTree: the merged payload's call tree is the merged tree); every case carries the expected merged
+payload (one value vector per stack) and the driver merges the real stored payloads in every order of the profiles and
+compares stack by stack.  The frames are realised in every location class of ProfTree!LocClasses (no mapping, a mapping
+with a dense or a sparse id, a second mapping; none / some / all locations of a profile mapped).
+
 Depth: the spec has the level clamp of getNodeId as a constant (LevelCap) and enumerates stacks below / at / beyond it;
 it defines depth stretching (every level of every call path becomes a chain of R[l] frames: recursion, mutual recursion
 or distinct functions) and TLC proves on the small cases that building, merging and laying out commute with it
@@ -28,7 +35,7 @@ import vlib
 SPECDIR = os.path.join(vlib.SPEC, 'ingest')
 
 INVS = ('BuildMechEqDef TreeWellFormed Conservation RootSumStacked MergeEqBuildUnion MergeCommAssoc ReaderMergeEqDef '
-        'RowsCommute FlameTotals LayoutMechEqDef LayoutNested KeyInjective SelfSumStacked StretchHom StretchLayout Export')
+        'PayloadMergeEqDef PayloadMergeSum PayloadMergeTree RowsCommute FlameTotals LayoutMechEqDef LayoutNested KeyInjective SelfSumStacked StretchHom StretchLayout Export')
 
 CFG = '''SPECIFICATION Spec
 CONSTANTS
@@ -113,7 +120,10 @@ CLASSES_REQUIRED = ['empty_stack_sample', 'recursive_stack', 'sample_with_linele
                     'abstract_stack_beyond_cap', 'real_stack_below_level_clamp', 'real_stack_at_level_clamp',
                     'real_stack_one_beyond_level_clamp', 'real_stack_beyond_level_clamp', 'real_stack_of_thousands_of_frames',
                     'level_stretched_by_recursion', 'level_stretched_by_distinct_functions',
-                    'level_stretched_by_mutual_recursion']
+                    'level_stretched_by_mutual_recursion',
+                    # the merge of the stored payloads (ProfTree!PayloadMerged) over every location class (ProfTree!LocClasses)
+                    'payload_merge_runs', 'payload_stacks_compared', 'payload_location_unmapped', 'payload_location_mapped',
+                    'payload_location_sparse_mapping_id', 'payload_location_second_mapping']
 DEEPMOD = {'quick': 96, 'thorough': 32}
 DEFAULTS = dict(cap=2, plans='MCNoPlans', deep=0)
 
@@ -326,6 +336,8 @@ def run(tier):
                'canonical_layouts_compared': result['canon_layouts'], 'classes': result['classes'],
                'names_used': result['name_pool_used'], 'row_orders_per_case_max': result['orders_per_case_max'],
                'observations_validated_by_tlc': obsres, 'mismatch_counts': result['mismatch_counts'],
+               'payload_merges_compared': result['classes'].get('payload_merge_runs', 0),
+               'payload_stacks_compared': result['classes'].get('payload_stacks_compared', 0),
                'aux_not_part_of_C16': result['aux'],
                'checker_cmd': 'tlc MC_ProfTree (x%d configs) -> c16 run -> tlc MC_ProfTreeObs' % len(mcs)}
         if tier == 'thorough':
@@ -350,6 +362,9 @@ def run(tier):
                                 'one reader Tree per sample type, as ProfService.getTree builds it; trailing empty BFS levels are ignored',
                                 'function identity is the function NAME (the writer hashes names), a location without line info is the function "n/a"; '
                                 'only Line[0] of a location counts (no inlined frames generated)',
-                                'MaxSelf is not part of the statement and is not compared']}
+                                'MaxSelf is not part of the statement and is not compared',
+                                'the merged pprof payload is read back as a bag of (stack of function names, values): samples of one stack that '
+                                'differ in labels or in the locations that realise a function are added up; mappings, addresses and ids of the '
+                                'merged profile are not compared']}
     finally:
         shutil.rmtree(sd, ignore_errors=True)
